@@ -680,6 +680,112 @@ def hEdsReconcile (inp out : Json) : Except String Findings := do
       | _, _ => true)
   return fs
 
+/-! ### ExtendedDaemonSetReplicaSet Reconcile (L2) -/
+structure DsJ where
+  name : String
+  ns : String
+  selector : Option LabelSelector
+  deriving FromJson
+
+structure CreatedJ where
+  node : String
+  pod : Pod
+  deriving FromJson
+
+structure ErsOutJ where
+  kind : String
+  requeue : Bool
+  requeueAfter : Dur
+  deleted : List String
+  labelAdds : List String
+  labelRemoves : List String
+  creates : List CreatedJ
+  statusUpdate : Option ERSStatus
+  order : List String
+  foreign : List String
+  deriving FromJson
+
+def hErsReconcile (inp out : Json) : Except String Findings := do
+  let rs : ERS ← get inp "ers"
+  let d : EDS ← get inp "eds"
+  let nodes : List Node ← get inp "nodes"
+  let pods : List Pod ← get inp "pods"
+  let settings : List Setting ← get inp "settings"
+  let dss : List DsJ ← get inp "daemonsets"
+  let aff : Bool ← get inp "affinity"
+  let now : Time ← get inp "now"
+  let o : ErsOutJ ← fromJson? out
+  let st : ErsStore := { edss := [d], nodes := nodes, pods := pods, settings := settings,
+                         daemonsets := dss.map (fun x => { name := x.name, ns := x.ns, selector := x.selector }) }
+  -- a fresh reconciler: empty back-off, every node released
+  let m := reconcileErs rs st (fun _ => true) aff now
+  let fs : Findings := #[]
+  let fs := spec fs "C16.reconcile-no-crash(ERS)" (o.kind != "panic")
+  if o.kind == "panic" then return fs else
+  let fs := diff fs "earlyErr" (o.kind == "err") m.earlyErr
+  -- which candidates fill a limited budget depends on Go's map order: compare the clean-up part
+  -- exactly, the update part by size and membership in the candidates
+  let updDel := o.deleted.filter (fun x => !m.cleanupDeletes.contains x)
+  let fs := diff fs "deleted.cleanup" (isSubset m.cleanupDeletes o.deleted) true
+  let fs := diff fs "deleted.update.count" updDel.length m.deletes.length
+  let fs := diff fs "deleted.update.candidates" (isSubset updDel m.deleteCands) true
+  let fs := diff fs "labelAdds" (sortStrs o.labelAdds) (sortStrs m.labelAdds)
+  let fs := diff fs "labelRemoves" (sortStrs o.labelRemoves) (sortStrs m.labelRemoves)
+  let fs := diff fs "create.count" o.creates.length m.creates.length
+  let fs := diff fs "create.candidates" (isSubset (o.creates.map (·.node)) (m.createCands.map (·.node.name))) true
+  let fs := o.creates.foldl (fun fs c =>
+      match m.createCands.find? (fun ni => ni.node.name == c.node) with
+      | some ni => diff fs s!"create.pod({c.node})" (podStr c.pod) (podStr (createPod rs (some ni.node) ni.setting aff).pod)
+      | none => fs) fs
+  let fs := diff fs "statusUpdate" (statusOptStr o.statusUpdate) (statusOptStr m.statusUpdate)
+  let fs := diff fs "requeue" o.requeue m.requeue
+  let closeEnough := (o.requeueAfter == 0) == (m.requeueAfter == 0) && (o.requeueAfter - m.requeueAfter).natAbs < 1000000000
+  let fs := if closeEnough then fs else diff fs "requeueAfter" o.requeueAfter m.requeueAfter
+  -- ---- specification clauses on the implementation's API calls
+  let fs := spec fs "C12.writes-owned" o.foreign.isEmpty
+  let role := ersRole d rs.name
+  let canaryNodes := match d.status.canary with | some cs => cs.nodes | none => []
+  -- C01 at the API: at most one creation per node, only on listed fit nodes carrying no live pod of the EDS
+  let ownPods := ersPods d st
+  let fs := spec fs "C01.api-one-create-per-node" (decide (o.creates.map (·.node)).Nodup)
+  let fs := spec fs "C01.api-create-only-eligible-empty" (o.creates.all (fun c =>
+      nodes.any (fun n => n.name == c.node && fit rs.template n) &&
+      ownPods.all (fun p => p.nodeOf != some c.node || p.phase == "Unknown" || p.phase == "Failed")))
+  let fs := spec fs "C01.api-unknown-untouched" (ownPods.all (fun p => p.phase != "Unknown" || !o.deleted.contains p.name))
+  -- C04: confinement
+  let fs := spec fs "C04.canary-creates-in-list" (role != "canary" || o.creates.all (fun c => canaryNodes.contains c.node))
+  let fs := spec fs "C04.active-avoids-list" (role != "active" ||
+      (o.creates.all (fun c => !canaryNodes.contains c.node) &&
+       o.deleted.all (fun nm => match ownPods.find? (fun p => p.name == nm) with
+                                | some p => (match p.nodeOf with | some n => !canaryNodes.contains n | none => true)
+                                | none => true)))
+  let fs := spec fs "C04.unknown-inert" (role != "unknown" || (o.creates.isEmpty && o.deleted.isEmpty && o.labelAdds.isEmpty && o.labelRemoves.isEmpty))
+  let fs := spec fs "C04.label-only-own-ers" ((o.labelAdds ++ o.labelRemoves).all (fun nm =>
+      match pods.find? (fun p => p.name == nm && p.ns == rs.ns) with
+      | some p => SMap.get? p.labels K.ersNameLabel == some rs.name
+      | none => false))
+  -- C09: the gate and the stamp
+  let gated := match findCond rs.status.conds "LastFullSync", d.strategy.reconcileFrequency with
+    | some c, some f => isDefaulted d.strategy d.templateName && c.lastUpdate + f > now + sec
+    | _, _ => false
+  let fs := spec fs "C09.gate-no-write" (!gated || o.order.isEmpty)
+  let wrote := !(o.creates.isEmpty && o.deleted.isEmpty)
+  let fs := spec fs "C09.stamp" (!wrote || (match o.statusUpdate with
+      | some s => (match findCond s.conds "LastFullSync" with | some c => c.lastUpdate == now | none => false)
+      | none => false))
+  -- C10: created pods are pinned and carry the metadata
+  let fs := spec fs "C10.api-pinned-meta" (o.creates.all (fun c => Spec.C10.pinned c.pod c.node aff && Spec.C10.metaOk c.pod rs))
+  -- C14: counter ordering for the active / canary role
+  let fs := match o.statusUpdate with
+    | some s => spec fs "C14.ers-order" (s.status == "unknown" || s.status == "" ||
+                  (0 ≤ s.available && s.available ≤ s.ready && s.ready ≤ s.current && s.current ≤ s.desired))
+    | none => fs
+  -- C11/C17: pod operations precede the status write
+  let fs := spec fs "C11.status-last" (match o.order.findIdx? (·.startsWith "status:ERS") with
+      | some i => i + 1 == o.order.length
+      | none => true)
+  return fs
+
 def handlers : List (String × (Json → Json → Except String Findings)) := [
   ("limits", hLimits),
   ("max_creation", hMaxCreation),
@@ -696,7 +802,8 @@ def handlers : List (String × (Json → Json → Except String Findings)) := [
   ("node_hash", hNodeHash),
   ("select_nodes", hSelectNodes),
   ("cli", hCli),
-  ("eds_reconcile", hEdsReconcile)
+  ("eds_reconcile", hEdsReconcile),
+  ("ers_reconcile", hErsReconcile)
 ]
 
 def handleLine (line : String) : String :=
